@@ -19,6 +19,7 @@ const ModPath = "github.com/openkruise/rollouts"
 
 // Program is the loaded, type-checked and SSA-built repository.
 type Program struct {
+	addrTaken map[*ssa.Function]bool
 	Dir      string
 	Fset     *token.FileSet
 	Roots    []*packages.Package // repository packages
@@ -165,6 +166,7 @@ func Load(dir string, whole bool, overlay map[string][]byte) (*Program, error) {
 	for _, fn := range p.repoFns {
 		p.fnByName[FuncName(fn)] = fn
 	}
+	theProgram = p
 	return p, nil
 }
 
@@ -317,4 +319,32 @@ func (p *Program) ReadFile(path string) ([]byte, error) {
 		return b, nil
 	}
 	return os.ReadFile(path)
+}
+
+// addressTaken lists the repository functions used as values (stored, passed, returned): their
+// callers are not all known.
+func (p *Program) addressTaken() map[*ssa.Function]bool {
+	if p.addrTaken != nil {
+		return p.addrTaken
+	}
+	p.addrTaken = map[*ssa.Function]bool{}
+	for _, fn := range p.repoFns {
+		for _, b := range fn.Blocks {
+			for _, in := range b.Instrs {
+				var callee ssa.Value
+				if ci, ok := in.(ssa.CallInstruction); ok {
+					callee = ci.Common().Value
+				}
+				for _, op := range in.Operands(nil) {
+					if *op == nil {
+						continue
+					}
+					if f, ok := (*op).(*ssa.Function); ok && ssa.Value(f) != callee {
+						p.addrTaken[f] = true
+					}
+				}
+			}
+		}
+	}
+	return p.addrTaken
 }
